@@ -321,7 +321,7 @@ def _term_interp(model: PyModel):
 
 
 GROUPS = {"g": ("b", "@h", "a", "@h"), "h": ("d", "c{yyyymmdd[1]}"), "e": (), "k": ("@g", "@e", "b")}
-INPUTS = [("x", "@g", "y"), ("@h", "@h"), ("@k",), ("@e", "z"), (), ("b", "a", "b")]
+INPUTS = [("x", "@g", "y"), ("@h", "@h"), ("@k",), ("@e", "z"), (), ("b", "a", "b"), ("p{yyyymmdd[0]}", "@h", "q{{r}}")]
 
 
 def _expected(names) -> list[str]:
@@ -362,6 +362,7 @@ def _scenarios(run: Run, model: PyModel) -> bool:
                 all_ok = False
                 continue
             got = []
+            formatted = []
             for it in s.obj(v).items:
                 it = I.B.freeze_term(I, it, s)
                 # Path(<name or name.format(...)>)
@@ -373,6 +374,11 @@ def _scenarios(run: Run, model: PyModel) -> bool:
                     elif isinstance(a0, Term) and a0.head == "format":
                         nm = a0.args[0]
                         win = win or a0
+                elif isinstance(it, str):
+                    nm = it
+                elif isinstance(it, Term) and it.head == "format":
+                    nm = it.args[0]
+                formatted.append("format(" in repr(it))
                 got.append(nm if nm is not None else repr(it)[:40])
             want = _expected(inp)
             ok = got == want
@@ -387,6 +393,16 @@ def _scenarios(run: Run, model: PyModel) -> bool:
                     what.append("members missing or extra")
             run.check("C18.R1", f"expand({list(inp)}) = {want}", ok, "expand_file_group_paths", f"{list(inp)} -> {got}",
                       f"with groups {GROUPS} the arguments {list(inp)} expand to {got}; in-place, in-order expansion gives {want} ({'; '.join(what)})", file=FILE)
+            if ok:
+                # which of them went through str.format: members of groups do (date patterns), ordinary path arguments are handed on as written (`notes/{x}.zo` is a file name)
+                # (for a name without braces formatting is the identity: not constrained)
+                top = []
+                for nme in inp:
+                    top.extend([(True if "{" in m else None) for m in _expected((nme,))] if nme.startswith("@") else [(False if "{" in nme else None)])
+                bad = [(g, f) for g, f, t in zip(got, formatted, top) if t is not None and f != t]
+                run.check("C18.R1", f"expand({list(inp)}): group members are formatted with the date fields, ordinary arguments are not", not bad, "expand_file_group_paths",
+                          f"{list(inp)}: {bad}", f"of the expansion of {list(inp)} = {got}: {[(g, 'formatted' if f else 'not formatted') for g, f in bad]} -- an ordinary path argument "
+                          "containing braces is rewritten (or raises KeyError), or a group member's date pattern is left unexpanded", file=FILE)
     run.floor("expansion scenarios", n, len(INPUTS))
     # the window, read off the arguments handed to str.format
     if win is None:
